@@ -9,9 +9,18 @@
   * Parabolic SAR (every reachable state, every candle with low ≤ high): the returned SAR is ≤ the low in an up-trend and
     ≥ the high in a down-trend (`C12_sar_side`).
   * Bollinger: the model's variance is ≥ 0 so for sigma > 0 upper ≥ middle ≥ lower; StDev² ≥ 0; true range ≥ 0; CLV in [−1,1].
+  * Over WHOLE candle streams, from the constructor (no step panics; the bound holds at every step):
+    Aroon [0,1] (`C12_aroon_run`); RSI [0,1] for every non-overshooting kind (`C12_rsi_run`); MoneyFlowIndex [0,1] for
+    non-negative volumes (`C12_mfi_reachable`); Stochastic, both lines, [0,1] for every pair of non-overshooting kinds
+    (`C12_stochastic_run`); Chande momentum [−1,1] (`C12_cmo_run`); Chaikin money flow [−1,1] wherever the window's volume is
+    not zero (`C12_cmf_reachable`); TSI [−1,1] (`C12_tsi_range`); TrendStrengthIndex p² ≤ q (`C12_trend_strength_range`);
+    Bollinger variance ≥ 0 hence upper ≥ middle ≥ lower (`C12_bollinger_run`); Keltner lower ≤ upper for every
+    configuration (`C12_keltner_run`); Donchian contains the candle (`C12_channel_reachable`); LinearVolatility,
+    MeanAbsDev ≥ 0 (`C12_linear_volatility_nonneg`, `C12_mean_abs_dev_nonneg`).
+    "Non-overshooting kind": all but HMA, DEMA, TEMA, LinReg (`C12_every_smooth_kind_hull`, from the C15 hull theorems).
   The float side — rounding residue of either sign behind exact `== 0` guards — is what these theorems cannot see; the
   correspondence run tests the ranges strictly on the implementation's own values (see KNOWN_FINDINGS.txt).
-  Partial: ranges of the smoothed Stochastic lines and of the SMI signal line (averages of values in range): run only.
+  Partial: the SMI signal line, Envelopes ordering for arbitrary kinds, PriceChannel ordering: run only.
 -/
 import YataProofs.Indicators.More
 import YataProofs.Numeric.LinVol
